@@ -68,3 +68,21 @@ Example aug_demo :
   = inr [ {| ns_ftype := "gto"; ns_region := ""; ns_am := [0%Z]; ns_exp := (250, 2000)%Z |};
           {| ns_ftype := "gto"; ns_region := ""; ns_am := [0%Z]; ns_exp := (12500, 400000)%Z |} ].
 Proof. vm_compute. reflexivity. Qed.
+
+(* successive months form a descending chain: what k months before jul remove from an element, every k' >= k months remove
+   in exactly the same way (and each output shell is the input shell or the input shell minus one primitive) *)
+From BSE Require Proofs.TruhlarChain.
+Theorem truhlar_chain : TruhlarChain.truhlar_chain_stmt.
+Proof. exact TruhlarChain.truhlar_chain. Qed.
+Print Assumptions truhlar_chain.
+
+Definition chain_demo_shells : list sshell :=
+  [ mkShell "gto" "" [0%Z] ["10.0"; "0.5"] [["1.0"; "0.0"]; ["0.0"; "1.0"]];
+    mkShell "gto" "" [1%Z] ["3.0"; "0.2"] [["1.0"; "0.0"]; ["0.0"; "1.0"]];
+    mkShell "gto" "" [2%Z] ["1.5"; "0.3"] [["1.0"; "0.0"]; ["0.0"; "1.0"]] ].
+Example chain_demo :
+  exists o1 o2, element_remove_diffuse chain_demo_shells (Some 1%Z) = inr o1 /\
+                element_remove_diffuse chain_demo_shells (Some 2%Z) = inr o2 /\
+                nth_error o1 1 = nth_error chain_demo_shells 1 /\ nth_error o2 1 <> nth_error chain_demo_shells 1 /\
+                nth_error o1 2 = nth_error o2 2 /\ nth_error o1 2 <> nth_error chain_demo_shells 2.
+Proof. eexists. eexists. vm_compute. repeat split; try reflexivity; discriminate. Qed.
